@@ -8,7 +8,7 @@ rows = ['| seeded change (`/verif/seeded/<name>`) | property | what it needs to 
 for name in sorted(res):
     meta = json.load(open(os.path.join(ROOT, 'seeded', name, 'meta.json')))
     r = res[name]
-    obs = '; '.join('`%s`' % o.split(': ', 1)[-1] for o in r['obligations'][:2]) or '—'
+    obs = '; '.join('`%s`' % o.split(': ', 1)[-1].split(': new obligation')[0] for o in r['obligations'][:2]) or '—'
     rows.append('| %s | %s | %s | %s | %s |' % (name, r['property'], meta['needs'].replace('|', '/'), r['verdict'], obs))
 k = sum(1 for v in res.values() if v['verdict'] == 'CAUGHT')
 table = '\n'.join(rows) + '\n\n%d of %d stored changes are caught by the check of the property they were seeded against.' % (k, len(res))
